@@ -38,7 +38,7 @@ def unmodelled_library_uses(prog, quals):
             if dotted in ('dataclasses.field', 'dataclasses.replace', 'dataclasses.asdict', 'dataclasses.astuple', 'struct.error'):
                 out.add(dotted)         # (struct.error: when struct.pack refuses a value is not part of the struct summaries)
             # record helpers and class machinery the evaluator does not model
-            if isinstance(n, ast.Attribute) and n.attr in ('_replace', '_asdict', '_make', '_fields', '__dict__', '__subclasses__'):
+            if isinstance(n, ast.Attribute) and n.attr in ('_make', '_fields', '__dict__', '__subclasses__'):
                 out.add('.%s' % n.attr)
     # class machinery anywhere in the modules the consulted functions live in (the evaluator never calls these hooks, so it
     # does not see a class that depends on them the way Python does)
